@@ -51,7 +51,17 @@ class Check:
         for n in world["nodes"]:
             if rng.random() < 0.3 and n["type"] in ("file", "dir"):
                 n["mode"] = rng.choice([0o644, 0o600, 0o755, 0o4755, 0o1777])
-        keys = rng.sample(GKEYS, rng.choice([1, 1, 1, 2]))
+        have = {n["path"] for n in world["nodes"]}
+        if rng.random() < 0.3:
+            # key values that contain the characters a careless key encoding would use as a separator,
+            # chosen so that distinct key tuples collide when joined
+            t = tops[0]
+            sep = rng.choice([",", ",", ":", "|", ";", " ", "/"[0:0] or "-"])
+            for pth, typ in ((t + "/a" + sep + "b", "dir"), (t + "/a" + sep + "b/x.c", "file"), (t + "/a", "dir"), (t + "/a/y.b" + sep + "c", "file"), (t + "/a/z.b" + sep + "c", "file")):
+                if pth not in have:
+                    have.add(pth)
+                    world["nodes"].append({"path": pth, "type": typ, **({"content": "x" * rng.choice([1, 10])} if typ == "file" else {})})
+        keys = rng.sample(GKEYS, rng.choice([1, 1, 2, 2]))
         aggs = ["count(*)"] + rng.sample(AGGS[1:], rng.choice([1, 2, 4]))
         aggs = [a for a in AGGS if a in aggs]
         where = rng.choice([None, None, "size > 9", "is_file = true"])
